@@ -1,5 +1,8 @@
 use std::fmt::{Debug, Formatter};
 use std::io;
+#[cfg(indicatif_verif)]
+use std::sync::Arc;
+#[cfg(not(indicatif_verif))]
 use std::sync::{Arc, RwLock};
 use std::thread::panicking;
 #[cfg(not(target_arch = "wasm32"))]
@@ -10,6 +13,8 @@ use crate::draw_target::{
     VisualLines,
 };
 use crate::progress_bar::ProgressBar;
+#[cfg(indicatif_verif)]
+use verif_sync::RwLock;
 #[cfg(target_arch = "wasm32")]
 use web_time::Instant;
 
